@@ -29,6 +29,7 @@ def run(ctx: Ctx) -> None:
     from ..rules import effects as _eff
     _eff.rule_weighted_fidelity(ctx)
     _eff.rule_pauli_tags(ctx)
+    _eff.rule_saturating_strength(ctx)
     from .c17 import rule_metric_value
     rule_metric_value(ctx)  # Infidelity.evaluate: 1 - F, and the representation literals of its dispatch
     from .c07 import rule_wrappers
@@ -52,6 +53,7 @@ def run(ctx: Ctx) -> None:
     effects.rule_noise_factor(ctx)
     effects.rule_noise_order(ctx)
     hooks.rule_pair_noise_applied(ctx)
+    hooks.rule_single_noise_applied(ctx)
     effects.rule_shared_op_store(ctx)
     effects.rule_stale_swap_read(ctx)
     effects.rule_weight_preserve(ctx)
@@ -67,6 +69,8 @@ def run(ctx: Ctx) -> None:
 
 
 KNOCKOUTS = [
+    Knockout("dm-additional-noise-skips-identity", "graphiq/backends/density_matrix/compiler.py", sub_nth("        if isinstance(op, ops.OneQubitOperationBase):\n            op.noise.apply(state, n_quantum, [q_index(op.register, op.reg_type)])\n", "        if isinstance(op, ops.InputOutputOperationBase) or isinstance(op, ops.Identity):\n            pass\n        elif isinstance(op, ops.OneQubitOperationBase):\n            op.noise.apply(state, n_quantum, [q_index(op.register, op.reg_type)])\n", 0), "noise.single-applied", "Identity"),
+    Knockout("depolarizing-strength-clamped", NM, sub_once('        depolarizing_prob = self.noise_parameters["Depolarizing probability"]\n', '        depolarizing_prob = self.noise_parameters["Depolarizing probability"]\n        mixing_prob = np.clip(4 * depolarizing_prob / 3, 0.0, 1.0)\n'), "num.saturating-strength", "clamp active"),
     Knockout("compile-tests-the-class-for-instance", "graphiq/backends/compiler_base.py",
              sub_once("            is_controlled_op = isinstance(\n                op, ops.ControlledPairOperationBase\n            ) or isinstance(op, ops.ClassicalControlledPairOperationBase)",
                       "            kind = type(op)\n            is_controlled_op = isinstance(\n                kind, ops.ControlledPairOperationBase\n            ) or isinstance(kind, ops.ClassicalControlledPairOperationBase)"),
